@@ -26,6 +26,7 @@ type Features struct {
 	Lib        bool // recursive library templates (app/3, mem/2, nat/1, len/2)
 	Strings    bool // double-quoted strings among the terms (they denote lists of the characters a, b, c)
 	Deep       bool // now and then one goal that recurses several thousand levels deep
+	Flags      bool // now and then a non-default double_quotes / unknown flag set before the program is loaded
 }
 
 // Program is a generated case: clauses, dynamic declarations, one query.
@@ -35,6 +36,10 @@ type Program struct {
 	Query     *rt.Term   `json:"query"`
 	ViaAssert bool       `json:"via_assert,omitempty"` // load the clauses with assertz instead of Exec
 	Deep      bool       `json:"deep,omitempty"`       // contains a down/1 goal: the reference needs a larger inference budget
+	// Flags set before the program is loaded: DQ = double_quotes value ("" = the default, chars), UnknownFail = the
+	// flag unknown set to fail
+	DQ          string `json:"dq,omitempty"`
+	UnknownFail bool   `json:"unknown_fail,omitempty"`
 }
 
 type sig struct {
@@ -606,12 +611,43 @@ func GenProgram(f Features) *rapid.Generator[*Program] {
 			pr.Query = rt.C(",", x.userCall(), pr.Query)
 		}
 		pr.ViaAssert = x.p(30, "viaassert")
+		if f.Flags {
+			// (rapid favours small values: the non-default settings sit on the largest)
+			switch x.n(0, 11, "dqflag") {
+			case 11:
+				pr.DQ = "codes"
+			case 10:
+				pr.DQ = "atom"
+			}
+			pr.UnknownFail = x.n(0, 11, "unknownflag") == 11
+		}
 		if x.deep {
 			pr.Deep = true
 			pr.Clauses = append(pr.Clauses, MustParse("down(0)"), MustParse("down(N) :- N > 0, M is N - 1, down(M)"))
 		}
 		return pr
 	})
+}
+
+// Mode is the double_quotes value in force.
+func (p *Program) Mode() string {
+	if p.DQ == "" {
+		return "chars"
+	}
+	return p.DQ
+}
+
+// FlagText is the text that sets the program's flags (loaded separately, before the program: a parser keeps the
+// double_quotes value it was created with).
+func (p *Program) FlagText() string {
+	s := ""
+	if p.DQ != "" {
+		s += ":- set_prolog_flag(double_quotes, " + p.DQ + ").\n"
+	}
+	if p.UnknownFail {
+		s += ":- set_prolog_flag(unknown, fail).\n"
+	}
+	return s
 }
 
 // Vars returns the query's variable ids in order of first occurrence. Ids >= 900 are anonymous
@@ -692,5 +728,5 @@ func (p *Program) QueryText() (string, []string) {
 
 func (p *Program) String() string {
 	q, _ := p.QueryText()
-	return p.Text() + "?- " + q
+	return p.FlagText() + p.Text() + "?- " + q
 }
